@@ -545,6 +545,13 @@ def spaces(tier, variant, seed):
         R.count("states", 4)
         return (i, n, neg, start_alloc)
 
+    if "asan" in variant:
+        # the cross-property arithmetic battery (C01-C03, C06-C10, C16 at small scope) under AddressSanitizer: every TMP_ALLOC (alloca is
+        # instrumented; heap blocks in the malloc-reentrant variant) and every destination gets a red zone, so a scratch estimate or a
+        # destination that is one limb too small anywhere in the arithmetic code is a violation here even when the value stays right
+        from .C14 import battery_spaces
+        sp += battery_spaces(variant, 20 if quick else 4, cfgname=variant)
+
     sp.append(Space("limbs_protocol", list(range(len(LIMBV))), lb_cases, lb_one,
                     "mpz_limbs_write/finish, mpz_limbs_modify (growing), mpz_limbs_read, mpz_getlimbn, mpz_size, mpz_roinit_n (un-normalised size, used as an input): values, allocation field == block size, no block lost"))
 
